@@ -650,6 +650,64 @@ pub fn axis_b_depth1() -> Vec<Snip> {
         let stmts = vec![b.assign(var(v), Expr::Num(l.to_string())), b.print(vec![bin(op, var(v), Expr::Num(r.to_string()))])];
         out.push(Snip { stmts, label: format!("comparison below the tolerance #{}", k), ill_typed: false });
     }
+    // a LONG beyond 2^24 that no SINGLE holds, against the SINGLEs next to it (both are exact values of
+    // their own types; the order is the order of the numbers): operator, IF condition, CASE tests, loop test
+    for (k, (l, s)) in [
+        (16777217i64, 16777216i64),
+        (16777217, 16777218),
+        (-16777217, -16777216),
+        (33554433, 33554432),
+        (33554435, 33554436),
+        (1073741825, 1073741824),
+        (2147483647, 2147483648),
+        (-2147483647, -2147483648),
+        (70001, 70000),
+    ]
+    .into_iter()
+    .enumerate()
+    {
+        let lit = |v: i64| if v < 0 { Expr::Neg(Box::new(Expr::Num((-v).to_string()))) } else { Expr::Num(v.to_string()) };
+        for op in BinOp::ALL.into_iter().filter(|o| o.is_relational()) {
+            for order in 0..2 {
+                for ctx in [0usize, 1, 6] {
+                    let mut b = B::new();
+                    let mut stmts = vec![b.assign(var("NL&"), lit(l)), b.assign(var("NS!"), lit(s))];
+                    let e = if order == 0 { bin(op, var("NL&"), var("NS!")) } else { bin(op, var("NS!"), var("NL&")) };
+                    let Some(use_) = in_context(&mut b, ctx, e, false) else { continue };
+                    stmts.extend(use_);
+                    out.push(Snip { stmts, label: format!("LONG next to a SINGLE #{} {:?} order{} ctx{}", k, op, order, ctx), ill_typed: false });
+                }
+            }
+        }
+        // SELECT CASE on the LONG with the SINGLE in the tests, on the SINGLE with the LONG in the tests; a loop that
+        // runs while they differ
+        for order in 0..2 {
+            let mut b = B::new();
+            let (subj, test) = if order == 0 { ("NL&", "NS!") } else { ("NS!", "NL&") };
+            let mut stmts = vec![b.assign(var("NL&"), lit(l)), b.assign(var("NS!"), lit(s))];
+            let same = vec![b.print(vec![st("same")])];
+            let above = vec![b.print(vec![st("above")])];
+            let below = vec![b.print(vec![st("below")])];
+            stmts.push(b.s(K::Select {
+                subject: var(subj),
+                cases: vec![(vec![CaseExpr::Simple(var(test))], same), (vec![CaseExpr::Is(BinOp::Gt, var(test))], above)],
+                els: Some(below),
+            }));
+            out.push(Snip { stmts, label: format!("LONG next to a SINGLE #{} CASE order{}", k, order), ill_typed: false });
+        }
+        if l.abs() < 2147483647 {
+            let mut b = B::new();
+            let mut stmts = vec![b.assign(var("NL&"), lit(l)), b.assign(var("NS!"), lit(s)), b.assign(var("NN%"), num(0))];
+            let (cond, delta) = if l > s { (bin(BinOp::Lt, var("NS!"), var("NL&")), -1) } else { (bin(BinOp::Gt, var("NS!"), var("NL&")), 1) };
+            let body = vec![
+                b.assign(var("NN%"), bin(BinOp::Add, var("NN%"), num(1))),
+                b.assign(var("NL&"), bin(BinOp::Add, var("NL&"), num(delta))),
+            ];
+            stmts.push(b.s(K::While(cond, body)));
+            stmts.push(b.print(vec![var("NN%"), var("NL&")]));
+            out.push(Snip { stmts, label: format!("LONG next to a SINGLE #{} WHILE", k), ill_typed: false });
+        }
+    }
     for (k, e) in [
         bin(BinOp::Mul, bin(BinOp::Div, num(6), num(2)), num(20000)),
         bin(BinOp::Add, bin(BinOp::Div, num(6), num(2)), num(32767)),
